@@ -1837,6 +1837,23 @@ class X:
             else:
                 ex.ghost.pop(pkey, None)
             exit_states.append(ex)
+        elif is_for and spec and spec.get("exhaustive") and itv is not None and itv.k in ("gref", "nodeiter") \
+                and itv.t == getattr(self.c, "node_stack", None):
+            # a scan of the node stack whose body neither writes the stack nor assigns locals: when the loop runs to
+            # exhaustion, every node on the stack took a fall-through path of the body.  Node kinds range over the
+            # finite NodeKind universe, so the fact is instantiated for each member.
+            from . import pnodes
+            extra_locals = self.assigned_names(s_.body)
+            if extra_locals:
+                raise OutOfReach(f"exhaustive loop assigns locals {sorted(extra_locals)}")
+            elem = pnodes.element(self, body_state, itv.t)
+            # type invariant: the kind of a node is a NodeKind member
+            body_state.pc.append(pnodes.member_of(elem.t[0], pnodes.universe()))
+            self.assign_target(s_.target, elem, body_state, chain)
+            body_starts = [body_state]
+            self._exh = {"k": elem.t[0], "n0": len(body_state.pc), "falls": [], "head": head,
+                         "seq": head.ghost[itv.t].t, "field": itv.t, "exit_index": len(exit_states)}
+            exit_states.append(head.fork())
         elif is_for:
             elem = models.generic_element(self, body_state, itv)
             self.assign_target(s_.target, elem, body_state, chain)
@@ -1872,6 +1889,12 @@ class X:
                     bs.ghost = dict(bs.ghost)
                     bs.ghost["variant_at_head"] = V("int", vb)
             for s2, oc in self.block(s_.body, bs, chain):
+                exh = getattr(self, "_exh", None)
+                if exh is not None and oc[0] in ("fall", "continue"):
+                    g_now = s2.ghost.get(exh["field"])
+                    if g_now is None or not g_now.t.eq(exh["seq"]):
+                        raise OutOfReach("exhaustive loop body changes the node stack")
+                    exh["falls"].append(list(s2.pc[exh["n0"]:]))
                 if spec and spec.get("variant"):
                     s2.ghost = dict(s2.ghost)
                     if saved_vh is None:
@@ -1897,6 +1920,16 @@ class X:
                     exit_states.append(s2)
                 else:
                     results.append((s2, oc))
+        exh = getattr(self, "_exh", None)
+        if exh is not None:
+            self._exh = None
+            from . import pnodes
+            es = exit_states[exh["exit_index"]]
+            for n in pnodes.universe():
+                cst = z3.StringVal(pnodes.code(n))
+                alts = [z3.And(*[z3.substitute(c, (exh["k"], cst)) for c in f]) if f else z3.BoolVal(True)
+                        for f in exh["falls"]]
+                es.pc.append(z3.Implies(z3.Contains(exh["seq"], cst), z3.Or(*alts) if alts else z3.BoolVal(False)))
         for es in exit_states:
             if s_.orelse:
                 results.extend(self.block(s_.orelse, es, chain))
